@@ -68,6 +68,8 @@ def wire(inst, queries):
   for q in queries:
     if q[0] == 'setindex':
       L.append('setindex ' + (','.join(q[1]) if q[1] else '-'))
+    elif q[0] == 'trunc':
+      L.append(f'trunc {q[1]}')
     elif q[0] == 'agg':
       L.append('agg ' + (','.join(q[1]) if q[1] else '-') + ' ' + (','.join(str(i) for i in q[2]) if q[2] else '-'))
   return L
@@ -150,7 +152,13 @@ def check_case(out, inst, model_lines, queries):
   # geo index: several orders in a row on the same object (the arrays must follow the latest order)
   agg_real = []
   cur = None
+  n_trunc = None
   for q in queries:
+    if q[0] == 'trunc':
+      n_trunc = q[1]
+      data.df = data.df.iloc[:, -n_trunc:]
+      agg_real.append('trunc')
+      continue
     if q[0] == 'setindex':
       try:
         data.geo_index = list(q[1])
@@ -174,7 +182,8 @@ def check_case(out, inst, model_lines, queries):
     else:
       ser = data.aggregate_time_series(set(q[2]))
       shr = float(data.aggregate_geo_share(set(q[2])))
-      want = [sum((exact[q[1][i]][j] for i in q[2]), Fraction(0)) for j in range(len(dates))]
+      cols = list(range(len(dates))) if n_trunc is None else list(range(len(dates)))[-n_trunc:]
+      want = [sum((exact[q[1][i]][j] for i in q[2]), Fraction(0)) for j in cols]
       wshr = float(sum((means[q[1][i]] for i in q[2]), Fraction(0)) / tot) if tot else float('nan')
       if [Fraction(float(v)) for v in np.atleast_1d(ser)] != want if q[2] else not np.allclose(ser, 0):
         out.oracle_violation(dict(facts, call='aggregate_time_series', symptom='aggregate'), dict(case, index=q[1], sel=q[2]),
@@ -207,6 +216,13 @@ def check_case(out, inst, model_lines, queries):
         return
       pos = 2
       for q, r in zip(queries, agg_real):
+        if q[0] == 'trunc':
+          keep = dates[-q[1]:]
+          if [int(x) for x in rest[pos].split()[1:]] != keep:
+            out.mismatch('data-truncate', case, f'analysis window for n={q[1]}: model {rest[pos][:80]}, expected dates {keep}')
+            return
+          pos += 1 + len(order)
+          continue
         if q[0] == 'setindex':
           if rest[pos].strip() != r:
             out.mismatch('data-index', case, f'geo index {q[1]}: implementation {r}, model {rest[pos]}')
@@ -246,7 +262,7 @@ def run(out, tier, model_ok=True):
     pos = 0
     for c, q in zip(cases, plans):
       n_geo = len(se.pivot(c)[1])
-      exp = 2 + n_geo + 1 + 1 + 1 + sum(1 if x[0] == 'setindex' else 2 for x in q)
+      exp = 2 + n_geo + 1 + 1 + 1 + sum(1 if x[0] == 'setindex' else (1 + n_geo if x[0] == 'trunc' else 2) for x in q)
       # a rejected reconcile prints "err ValueError" and the following lines still appear
       model_out[id(c)] = (outl[pos:pos + exp], q)
       pos += exp
@@ -258,7 +274,7 @@ def run(out, tier, model_ok=True):
   out.rule = (f'{n} generated long-format frames (1-6 geos, shuffled rows, int/str IDs, missing cells, duplicate rows) x eligibility tables '
               '(none / subset / equal / superset with excludable ghosts / superset with a non-excludable ghost); per case: canonical table '
               'laws, shares, reconciliation accept/reject, assignable set, three geo-index installations in a row (re-orderings of the '
-              'same set included) with aggregates over random index subsets, rejection of a non-assignable index; compared with the Lean '
+              'same set included) with aggregates over random index subsets, rejection of a non-assignable index, truncation to the most recent n dates followed by another installation and aggregate; compared with the Lean '
               'model; non-trivial/distinct by (eligibility kind, ID dtype, geo order, number of dates)')
   out.extra.update({'cases': n, 'eligibility_kinds': kinds})
   out.sample({'geos': cases[0]['geos'], 'elig': cases[0]['elig'], 'elig_kind': cases[0]['elig_kind'], 'rows': cases[0]['rows'][:5]})
@@ -286,6 +302,13 @@ def plan_queries(rng, inst):
   bad = [g for g in table if g not in assignable]
   if bad:
     queries.append(('setindex', [bad[0]] + assignable[:1]))
+  if assignable:
+    # what TBRMatchedMarkets.__init__ does: keep the most recent n dates, then install an index and aggregate
+    n = rng.randint(1, len(dates) + 2)
+    idx = rng.sample(assignable, rng.randint(1, len(assignable)))
+    queries.append(('trunc', n))
+    queries.append(('setindex', idx))
+    queries.append(('agg', idx, sorted(rng.sample(range(len(idx)), rng.randint(1, len(idx))))))
   return queries
 
 
